@@ -679,11 +679,16 @@ def _task_proxy(_):
 
 
 class ProxyScenario(explore.Scenario):
-    """signal subscriptions of three proxies on two connections of one
-    process (two on one connection, for different paths): subscribe, cancel,
-    deliver"""
+    """signal subscriptions of four proxies on two connections of one
+    process (two of them for the same object on the same connection, i.e.
+    with identical rule text): subscribe, cancel, cancel the same
+    subscription once more, deliver.  The harness plays the bus: it keeps
+    the multiset of rule texts each connection has added and not removed,
+    answers RemoveMatch only when told to (so a second cancel can come
+    before the answer), and hands a signal to a connection only if one of
+    its rules matches."""
     name = 'C12/proxies'
-    PROXIES = [(0, '/obj'), (1, '/obj'), (0, '/obj2')]
+    PROXIES = [(0, '/obj'), (1, '/obj'), (0, '/obj2'), (0, '/obj')]
 
     def build(self):
         from txdbus import interface as I
@@ -700,6 +705,10 @@ class ProxyScenario(explore.Scenario):
         for cw in w.cws:
             cw.sent()
         w.subs = {}          # proxy index -> (rule id, rule text)
+        w.gone = {}          # proxy index -> rule id cancelled once
+        w.bus_rules = [[], []]      # what the bus holds per connection
+        w.unanswered = [[], []]     # RemoveMatch serials not yet answered
+        w.leaving = [[], []]        # proxies whose cancel is not answered
         w.calls = []
         w.serial = 4000
         return w
@@ -710,17 +719,37 @@ class ProxyScenario(explore.Scenario):
 
     def enabled(self, w):
         evs = []
-        for k in range(len(self.PROXIES)):
-            evs.append(('cancel', k) if k in w.subs else ('sub', k))
-        for ci in (0, 1):
-            for path in ('/obj', '/obj2'):
+        only = self.params.get('only', range(len(self.PROXIES)))
+        for k in only:
+            if k in w.subs:
+                evs.append(('cancel', k))
+            else:
+                evs.append(('sub', k))
+                if k in w.gone:
+                    evs.append(('recancel', k))
+        for ci in sorted({self.PROXIES[k][0] for k in only}):
+            for path in sorted({self.PROXIES[k][1] for k in only}):
                 evs.append(('sig', ci, path))
+            if w.unanswered[ci]:
+                evs.append(('answer', ci))
         return evs
 
     def _reply(self, w, ci, serial):
         w.serial += 1
         w.cws[ci].deliver(R.encode_message(R.METHOD_RETURN, w.serial,
                                            {'reply_serial': serial}))
+
+    def _bus_side(self, w, ci, msgs):
+        """the bus's bookkeeping for what the client just wrote"""
+        for m in msgs:
+            mem = m['fields'].get('member')
+            if mem == 'AddMatch':
+                w.bus_rules[ci].append(m['body'][0])
+                self._reply(w, ci, m['serial'])
+            elif mem == 'RemoveMatch':
+                if m['body'][0] in w.bus_rules[ci]:
+                    w.bus_rules[ci].remove(m['body'][0])
+                w.unanswered[ci].append(m['serial'])
 
     def apply(self, w, ev):
         viol = []
@@ -736,16 +765,18 @@ class ProxyScenario(explore.Scenario):
                 if len(m) != 1 or m[0]['fields'].get('member') != 'AddMatch':
                     return [('%s/proxies/subscribe-call' % PROP,
                              'notifyOnSignal wrote %r' % (m,))]
-                self._reply(w, ci, m[0]['serial'])
-                if len(ids) != 1 or isinstance(ids[0], Exception) or \
-                        hasattr(ids[0], 'value'):
+                self._bus_side(w, ci, m)
+                if len(ids) != 1 or not isinstance(ids[0], int):
                     return [('%s/proxies/subscribe-result' % PROP,
                              'notifyOnSignal gave %r' % (ids,))]
                 w.subs[k] = (ids[0], m[0]['body'][0])
+                w.gone.pop(k, None)
             elif ev[0] == 'cancel':
                 k = ev[1]
                 ci = self.PROXIES[k][0]
                 rid, text = w.subs.pop(k)
+                w.gone[k] = rid
+                w.leaving[ci].append(k)
                 w.prox[k].cancelSignalNotification(rid)
                 m = w.cws[ci].sent()
                 if len(m) != 1 or m[0]['fields'].get('member') != \
@@ -756,29 +787,58 @@ class ProxyScenario(explore.Scenario):
                                  % (sorted(w.subs), k,
                                     [(x['fields'].get('member'), x['body'])
                                      for x in m], text)))
-                if m:
-                    self._reply(w, ci, m[0]['serial'])
+                self._bus_side(w, ci, m)
+            elif ev[0] == 'recancel':
+                # the application cancels a subscription it already
+                # cancelled (e.g. a one-shot handler that ran twice)
+                k = ev[1]
+                ci = self.PROXIES[k][0]
+                w.prox[k].cancelSignalNotification(w.gone.pop(k))
+                self._bus_side(w, ci, w.cws[ci].sent())
+            elif ev[0] == 'answer':
+                ci = ev[1]
+                while w.unanswered[ci]:
+                    self._reply(w, ci, w.unanswered[ci].pop(0))
+                del w.leaving[ci][:]
+                w.cws[ci].sent()
             else:
                 _, ci, path = ev
                 del w.calls[:]
-                w.serial += 1
-                w.cws[ci].deliver(R.encode_message(
-                    R.SIGNAL, w.serial, {'path': path,
-                                         'interface': 'org.ex.S',
-                                         'member': 'Sig'}, 's', ['v']))
+                msg = {'type': 4, 'fields': {'path': path,
+                                             'interface': 'org.ex.S',
+                                             'member': 'Sig'},
+                       'body': ['v']}
+                if any(ref_match(parse_rule_text(t), msg)
+                       for t in w.bus_rules[ci]):
+                    w.serial += 1
+                    w.cws[ci].deliver(R.encode_message(
+                        R.SIGNAL, w.serial, msg['fields'], 's', ['v']))
                 want = sorted(k for k in w.subs
                               if self.PROXIES[k] == (ci, path))
-                if sorted(w.calls) != want:
+                # a subscription whose removal the bus has not confirmed
+                # yet is not "removed" yet: its callback may still run
+                extra = list(w.calls)
+                for k in want:
+                    if k in extra:
+                        extra.remove(k)
+                tolerated = [k for k in w.leaving[ci]
+                             if self.PROXIES[k] == (ci, path)]
+                for k in list(extra):
+                    if k in tolerated:
+                        tolerated.remove(k)
+                        extra.remove(k)
+                if extra or any(k not in w.calls for k in want):
                     viol.append((
                         '%s/proxies/%s' % (
                             PROP, 'after-cancel' if set(w.calls) - set(w.subs)
                             else 'missed' if set(want) - set(w.calls)
                             else 'spurious'),
                         'subscribed proxies %r (index: connection, path = '
-                        '%r); a signal from %s on connection %d invoked the '
-                        'callbacks of %r, expected %r'
-                        % (sorted(w.subs), self.PROXIES, path, ci,
-                           sorted(w.calls), want)))
+                        '%r; the bus holds the rules %r); a signal from %s '
+                        'on connection %d invoked the callbacks of %r, '
+                        'expected %r'
+                        % (sorted(w.subs), self.PROXIES, w.bus_rules, path,
+                           ci, sorted(w.calls), want)))
         except Exception as e:
             return [('%s/proxies/%s/raises-%s' % (PROP, ev[0],
                                                   type(e).__name__),
@@ -786,12 +846,10 @@ class ProxyScenario(explore.Scenario):
         return viol
 
     def canon(self, w):
-        if self.params.get('dedup'):
-            return tuple(sorted(w.subs))
         return None
 
     def nontrivial(self, hist):
-        return any(e[0] == 'cancel' for e in hist)
+        return any(e[0] in ('cancel', 'recancel') for e in hist)
 
 
 def run(ctx):
@@ -811,8 +869,8 @@ def run(ctx):
         'bus, which must deliver broadcasts exactly as the matcher says. D: '
         'proxy notifyOnSignal / cancelSignalNotification with matching and '
         'mismatching signatures; every history (length <= 4, 5 thorough) of '
-        'subscribe / cancel / signal over three proxies on two connections '
-        'of one process. E: one argument constraint (exact string, '
+        'subscribe / cancel / cancel once more / signal / bus answers over four '
+        'proxies on two connections of one process, two of them with identical rule text, against a harness that keeps the bus\'s multiset of rules. E: one argument constraint (exact string, '
         'path) at every index 0..63 against signals whose argument there '
         'matches, differs, is not a string, is missing or sits one place '
         'early - through the router, the rule text and the built-in bus'
@@ -832,6 +890,9 @@ def run(ctx):
                     max_depth=4 if ctx.quick else 5,
                     label='proxy subscriptions on two connections, all '
                           'histories')
+    explore.explore(ctx, ProxyScenario, {'dedup': False, 'only': [0, 3]},
+                    max_depth=6 if ctx.quick else 7,
+                    label='two proxies with one rule text, all histories')
     ctx.bounds = {'max_keys_per_rule': mk}
 
 
